@@ -28,6 +28,8 @@ struct Plan : sim::PlanBase {
   int eval_max = 2;
   long slow_frame = -1;   // >= 1: evaluating this frame takes slow_s simulated seconds (a stalled worker)
   int slow_s = 0;
+  long bad_frame = -1;    // >= 1: the trajectory reader throws when it is asked for this frame (a malformed frame in the file)
+  long bad_eval = -1;     // >= 1: the evaluation of this frame throws (a per-frame analysis error)
 };
 
 struct History {
@@ -81,6 +83,12 @@ class SimTrjReader : public csg::TrajectoryReader {
     m.reader.enter(U_READER_IN);
     bool ok = S.next_frame < S.plan->F;
     long f = -1;
+    if (ok && S.plan->bad_frame == S.next_frame + 1) {  // injected fault: the file is damaged here
+      m.probes["reader_threw"]++;
+      m.reader.leave(U_READER_OUT);
+      sim::set_phase(PH_IDLE);
+      throw std::runtime_error("malformed frame " + std::to_string(S.next_frame + 1) + " in the trajectory");
+    }
     if (ok) {
       f = ++S.next_frame;  // frames are numbered 1..F in file order
       top.setStep(f);
@@ -169,6 +177,7 @@ void HWorker::EvalConfiguration(csg::Topology *top, csg::Topology *) {
   // reach probes
   if (!m.delivered.empty() && m.delivered.back() > f) m.probes["later_frame_read_during_eval"]++;
   S.evals_in_flight--;
+  if (S.plan->bad_eval == f) { m.probes["evaluation_threw"]++; sim::set_phase(PH_IDLE); throw std::runtime_error("analysis failed for frame " + std::to_string(f)); }
   pending.push_back(f);
   sim::set_phase(PH_IDLE);
 }
@@ -253,6 +262,10 @@ struct Lib {
     p.eval_seed = r.next() >> 1;
     p.eval_max = (int)r.below(4);
     if (r.chance(0.15)) { p.slow_frame = 1 + (long)r.below((uint64_t)p.F); int ss[3] = {1, 40, 400}; p.slow_s = ss[r.below(3)]; }
+    // fault: a damaged frame in the file / a frame whose analysis fails.  The exception leaves a worker thread; whatever
+    // the 1-thread run makes of it (terminate on the tree as given), every other thread count must do the same - and not hang
+    if (r.chance(0.06)) p.bad_frame = 1 + (long)r.below((uint64_t)p.F);
+    else if (r.chance(0.06)) p.bad_eval = 1 + (long)r.below((uint64_t)p.F);
     p.pick_strategy(r);
     return p;
   }
@@ -261,7 +274,7 @@ struct Lib {
     js::Value v = js::Value::obj();
     p.base_to_json(v);
     v.set("N", p.N).set("F", p.F).set("first_frame", p.first_frame).set("nframes", p.nframes).set("ordered", p.ordered)
-     .set("eval_seed", (long long)p.eval_seed).set("eval_max", p.eval_max).set("begin", p.begin).set("slow_frame", p.slow_frame).set("slow_s", p.slow_s);
+     .set("eval_seed", (long long)p.eval_seed).set("eval_max", p.eval_max).set("begin", p.begin).set("slow_frame", p.slow_frame).set("slow_s", p.slow_s).set("bad_frame", p.bad_frame).set("bad_eval", p.bad_eval);
     return v;
   }
   static Plan from_json(const js::Value &v) {
@@ -271,6 +284,7 @@ struct Lib {
     p.ordered = v.at("ordered").b; p.eval_seed = (uint64_t)v.num("eval_seed", 0); p.eval_max = (int)v.num("eval_max", 0);
     p.begin = v.has("begin") ? v.at("begin").d : -1;
     p.slow_frame = (long)v.num("slow_frame", -1); p.slow_s = (int)v.num("slow_s", 0);
+    p.bad_frame = (long)v.num("bad_frame", -1); p.bad_eval = (long)v.num("bad_eval", -1);
     return p;
   }
 
@@ -337,6 +351,12 @@ struct Lib {
       case sim::RUN_ABORTED: fail(h.res.abort_class, h.res.abort_class + ":" + mode, h.res.abort_detail); return rep;
       default: break;
     }
+    if (!ref.uncaught.empty()) {
+      // the 1-thread run dies of an exception that leaves its worker thread (std::terminate): this run must die the same way
+      if (h.uncaught.empty()) fail("outcome-differs", "outcome-differs:" + mode, "the 1-thread run is terminated by an uncaught exception (" + ref.uncaught + "), this run ended with exit code " + std::to_string(h.exit_code));
+      else rep.counters["probe.terminated_like_the_reference"] = 1;
+      return rep;
+    }
     if (!h.uncaught.empty()) { fail("terminate", "terminate:" + mode, "uncaught exception in a worker thread: " + h.uncaught); return rep; }
     // 9: outcome class
     if (h.exit_code != ref.exit_code || h.err != ref.err) {
@@ -344,6 +364,9 @@ struct Lib {
                                                            std::to_string(ref.exit_code) + " / '" + ref.err + "'");
       return rep;
     }
+    // an injected error (damaged frame, failing analysis) that the code turns into an orderly error exit: the property
+    // says nothing about how far the other workers get before the run stops; same outcome and no hang is all that is asked
+    if (ref.exit_code != 0 && (plan.bad_frame > 0 || plan.bad_eval > 0)) { rep.counters["probe.error_exit_like_the_reference"] = 1; return rep; }
     // 7: multiset of evaluated frames
     std::vector<long> ef, rf;
     for (auto &e : h.evals) ef.push_back(e.second);
